@@ -509,6 +509,156 @@ func traceRC(c *eng.Ctx, t int, rng *rand.Rand) {
 	}, func() { clk.Add(time.Hour) })
 }
 
+// traceRCLag: the failure of a request is being recorded (the worker goroutine is inside RequestCache.error, parked in the
+// user-supplied not-found matcher) while another caller starts the same key.  Dedup.tla: between RcFnExit and the silent
+// RcFinish the key is still pending, after RcFinish the error is cached - there is no moment at which Start may run the
+// request again.  The matcher is the only dependency seam inside error(); on the code as built it is called under c.mu, so
+// the second Start cannot return before the matcher does (it is awaited for lagWait only, never required).
+func traceRCLag(c *eng.Ctx, t int, rng *rand.Rand) {
+	const unit = time.Second
+	const lagWait = 40 * time.Millisecond
+	cfg := baseCfg("rc", "lag")
+	cfg["nw"], cfg["bt"], cfg["ettl"], cfg["nfttl"], cfg["ci"] = 2, 2, 1+rng.Intn(3), 1+rng.Intn(2), 3
+	c.W.Reset(t, cfg)
+	abort := func(why string) {
+		c.W.Ev("abort", "why", why)
+		c.Inc("skipped", 1)
+	}
+	clk := newClock()
+	stats := &sigScope{Scope: tally.NoopScope}
+	rc := dedup.NewRequestCache(dedup.RequestCacheConfig{
+		NotFoundTTL: time.Duration(cfg["nfttl"].(int)) * unit, ErrorTTL: time.Duration(cfg["ettl"].(int)) * unit,
+		CleanupInterval: 3 * unit, NumWorkers: 2, BusyTimeout: 2 * unit,
+	}, clk, stats)
+	var gated int32
+	inMatcher, openMatcher := make(chan struct{}, 8), make(chan struct{})
+	rc.SetNotFound(func(err error) bool {
+		if atomic.LoadInt32(&gated) == 1 {
+			inMatcher <- struct{}{}
+			<-openMatcher
+		}
+		return errors.Is(err, errNF)
+	})
+	var infl int32
+	type reqFn struct {
+		in, left chan int
+		out      chan error
+	}
+	mk := func() (*reqFn, func() error) {
+		r := &reqFn{in: make(chan int, 1), left: make(chan int, 1), out: make(chan error, 1)}
+		return r, func() error {
+			r.in <- int(atomic.AddInt32(&infl, 1))
+			e := <-r.out
+			r.left <- int(atomic.LoadInt32(&infl))
+			atomic.AddInt32(&infl, -1)
+			return e
+		}
+	}
+	waitInt := func(ch chan int) (int, bool) {
+		select {
+		case n := <-ch:
+			return n, true
+		case <-time.After(longWait):
+			return 0, false
+		}
+	}
+	k := names("k", 3)[rng.Intn(3)]
+	e := []error{errNF, errOther}[rng.Intn(2)]
+	r1, f1 := mk()
+	r2, f2 := mk()
+	defer func() { // not logged: let every goroutine go
+		select {
+		case <-openMatcher:
+		default:
+			close(openMatcher)
+		}
+		r1.out <- nil
+		r2.out <- nil
+	}()
+
+	ret1 := make(chan error, 1)
+	go func() { ret1 <- rc.Start(k, f1) }()
+	select {
+	case err := <-ret1:
+		if err != nil {
+			abort("first Start failed")
+			return
+		}
+	case <-time.After(longWait):
+		abort("first Start did not return")
+		return
+	}
+	n, ok := waitInt(r1.in)
+	if !ok {
+		abort("first request function not entered")
+		return
+	}
+	c.W.Ev("Start", "c", "c1", "k", k, "res", "reserved")
+	c.W.Ev("Acquire", "c", "c1", "k", k, "infl", n)
+
+	u0 := stats.n()
+	atomic.StoreInt32(&gated, 1)
+	r1.out <- e
+	n, ok = waitInt(r1.left)
+	if !ok {
+		abort("request function did not leave")
+		return
+	}
+	c.W.Ev("Exit", "k", k, "e", errName(e), "infl", n)
+	select {
+	case <-inMatcher:
+	case <-time.After(longWait):
+		abort("matcher not consulted")
+		return
+	}
+
+	// the second caller arrives while the failure is being recorded
+	ret2 := make(chan error, 1)
+	go func() { ret2 <- rc.Start(k, f2) }()
+	logSecond := func(err error) bool {
+		if r := errName(err); r != "nil" {
+			c.W.Ev("Start", "c", "c2", "k", k, "res", r)
+			return true
+		}
+		n2, ok := waitInt(r2.in)
+		if !ok {
+			abort("second request function not entered")
+			return false
+		}
+		c.W.Ev("Start", "c", "c2", "k", k, "res", "reserved")
+		c.W.Ev("Acquire", "c", "c2", "k", k, "infl", n2)
+		return true
+	}
+	early := false
+	select {
+	case err := <-ret2:
+		early = true
+		if !logSecond(err) {
+			return
+		}
+	case <-time.After(lagWait):
+	}
+	atomic.StoreInt32(&gated, 0)
+	close(openMatcher)
+	t0 := time.Now()
+	for stats.n() == u0 && time.Since(t0) < longWait {
+		time.Sleep(50 * time.Microsecond)
+	}
+	if stats.n() == u0 {
+		abort("worker not released")
+		return
+	}
+	c.W.Ev("Released", "k", k)
+	if !early {
+		select {
+		case err := <-ret2:
+			logSecond(err)
+		case <-time.After(longWait):
+			abort("second Start did not return")
+		}
+	}
+}
+
 // settleAny is settle for the case where only one of the expected calls can make progress (one free slot):
 // it stops waiting for the others as soon as one has resolved.
 func (d *driver) settleAny(cs []*call, expect map[*call]bool) {
@@ -887,11 +1037,14 @@ func traceTrap(c *eng.Ctx, t int, rng *rand.Rand) {
 func run(c *eng.Ctx) error {
 	nF29 := 1
 	per := c.N(30, 250)
-	total := nF29 + 3*per
+	nLag := c.N(6, 40)
+	total := nF29 + 3*per + nLag
 	c.Traces(total, func(t int, rng *rand.Rand) {
 		switch { // the F29 schedule comes last: a rejected trace at the end of the log costs no second TLC pass
-		case t >= 3*per:
+		case t >= 3*per+nLag:
 			traceF29(c, t, rng)
+		case t >= 3*per:
+			traceRCLag(c, t, rng)
 		case t%3 == 0:
 			traceRC(c, t, rng)
 		case t%3 == 1:
